@@ -8,6 +8,7 @@ open GlueVerif.C03
 #print axioms specDepth_reachable
 #print axioms manager_inv
 #print axioms manager_reads
+#print axioms derived_reads_internal
 #print axioms selection_via_links
 #print axioms manager_no_dangling
 #print axioms removal_forgets
